@@ -62,13 +62,14 @@ func (r *DecodeResult) decode(data []byte) error {
 			// . varint -> int32, int64, uint32, uint64, sint32, sint64, bool, enum
 			// . fixed32 -> int32, uint32, float32
 			// . fixed64 -> int32, uint64, float64
+			valStart := dec.Offset()
 			val, err := dec.Skip(tag, wt)
 			if err != nil {
 				return err
 			}
 
 			// Skip() returns the entire field contents, both the tag and the value, so we need to skip past the tag
-			val = val[csproto.SizeOfTagKey(tag):]
+			val = val[len(val)-(dec.Offset()-valStart):]
 			fd.wt = wt
 			fd.data = append(fd.data, val)
 		case csproto.WireTypeLengthDelimited:
